@@ -43,6 +43,16 @@ def call(mod, msg, form):
     return ("ok", r)
 
 
+def call_raw(mod, obj):
+    try:
+        r = mod.crc7(obj)
+    except Exception as e:
+        return ("exc", type(e).__name__)
+    if isinstance(r, bool) or not isinstance(r, int):
+        return ("bad", repr(r))
+    return ("ok", r)
+
+
 def gen_messages(ctx):
     msgs = [[]] + [[i] for i in range(256)]
     if ctx.tier == "thorough":
@@ -70,6 +80,24 @@ def gen_messages(ctx):
 def oracle_search(mod, ctx, msgs):
     """Concrete failing inputs of the PROPERTY on the implementation."""
     out = []
+    # a buffer object reused after an in-place change
+    rr = ctx.rng
+    for _ in range(3000):
+        n = rr.choice([1, 2, 3, 8])
+        buf = bytearray(rr.randrange(256) for _ in range(n)) if rr.random() < 0.5 else [rr.randrange(256) for _ in range(n)]
+        first = list(buf)
+        g1 = call_raw(mod, buf)
+        i = rr.randrange(n)
+        bit = rr.randrange(8)
+        buf[i] ^= 1 << bit
+        g2 = call_raw(mod, buf)
+        if g1 != ("ok", ref_crc(first)):
+            break
+        if g2 != ("ok", ref_crc(list(buf))):
+            out.append({"kind": "history", "what": "crc7 of a %s reused after flipping bit %d of byte %d in place: %r, bit-serial CRC-7 of %r gives %d "
+                        "(first call on %r gave %r)" % (type(buf).__name__, bit, i, g2, list(buf), ref_crc(list(buf)), first, g1),
+                        "fingerprint": "crc7-stale-result-on-reused-buffer", "first": first, "flip": [i, bit], "buffer_type": type(buf).__name__})
+            return out
     table = getattr(mod, "_crc7_table", None)
     cand = [[i] for i in range(256)] + msgs
     if ctx.tier == "thorough" or True:
@@ -158,6 +186,33 @@ Print Assumptions impl_burst7.
             cases.append((m, got[1]))
         if len(m) >= 1:
             nontrivial.add(tuple(m))
+    # the same mutable buffer object checksummed again after in-place changes (a receive buffer):
+    # crc7 must be a function of the bytes it is given now, not of an earlier call
+    r = ctx.rng
+    for _ in range(120 if ctx.tier == "quick" else 1500):
+        n = r.choice([1, 2, 3, 8, 16, 33])
+        buf = [r.randrange(256) for _ in range(n)]
+        obj = buf if r.random() < 0.5 else bytearray(buf)
+        for step in range(r.choice([2, 3, 5])):
+            try:
+                got = mod.crc7(obj)
+            except Exception as e:     # noqa
+                got = None
+                impl_errors.append((list(obj), ("exc", type(e).__name__)))
+            snap = list(obj)
+            ok = isinstance(got, int) and not isinstance(got, bool) and got >= 0
+            cases.append((snap, got if ok else None))
+            msgs.append(snap)
+            nontrivial.add(tuple(snap))
+            ctx.count("form=reused-buffer")
+            k = r.random()
+            if k < 0.5:
+                i = r.randrange(n)
+                obj[i] ^= 1 << r.randrange(8)          # flip one bit in place
+            elif k < 0.8:
+                i = r.randrange(n)
+                obj[i] = r.randrange(256)
+            # else: unchanged, checksum the same content again
     ctx.obligation("corr:crc7 returns an int for every byte string", not impl_errors, repr(impl_errors[:3]))
     bad_total = []
     if table_ok:
@@ -201,7 +256,7 @@ Print Assumptions impl_burst7.
         for i in bad_total[:50]:
             m, v = cases[i]
             exp = ref_crc(m)
-            if v != exp:
+            if v != exp and call(mod, m, 0) != ("ok", exp):     # reproducible on a fresh object
                 found.append({"kind": "input", "what": "crc7(%r) = %r, bit-serial CRC-7 gives %d" % (m, v, exp),
                               "fingerprint": "crc7-differs-from-bitwise", "input": m, "expected": exp, "got": v})
                 break
@@ -230,6 +285,18 @@ Print Assumptions impl_burst7.
 
 def replay(ctx, obj):
     mod = impl()
+    if obj.get("kind") == "history":
+        first = obj["first"]
+        buf = bytearray(first) if obj.get("buffer_type") == "bytearray" else list(first)
+        g1 = call_raw(mod, buf)
+        i, bit = obj["flip"]
+        buf[i] ^= 1 << bit
+        g2 = call_raw(mod, buf)
+        print("crc7(buffer) = %r ; after flipping bit %d of byte %d in place crc7(buffer) = %r ; reference = %d" % (g1, bit, i, g2, ref_crc(list(buf))))
+        if g2 != ("ok", ref_crc(list(buf))) or g1 != ("ok", ref_crc(first)):
+            print("VIOLATION property=C20 replay=(replayed)")
+            return 1
+        return 0
     if obj.get("kind") == "input" and "flipped_bits" not in obj:
         m = obj["input"]
         got = call(mod, m, 0)
